@@ -157,11 +157,15 @@ impl LockStep {
         if what.starts_with("hidden state: alternate screen") {
             return p == "C16";
         }
+        if p == "C06" && (what.starts_with("scrollback has") || what.starts_with("scrollback line")) {
+            // what lands in the scrollback is C06's business whichever command scrolled
+            return true;
+        }
         if p == "C08" && what.contains("blank cell has pen") {
             // "every cell ... blanked afterwards reports exactly that pen"
             return true;
         }
-        if p == "C08" && matches!(cmd, Text(_) | El(_) | Cr) {
+        if p == "C08" && (what.contains("[pen-only]") || what.starts_with("hidden state: pen")) {
             // "every cell printed or blanked afterwards reports exactly that pen"
             return true;
         }
